@@ -79,10 +79,11 @@ def clsCur (S : Nat) (rows : List (List Entry)) (a : Cur) : Cur :=
   rows.foldl (fun a row => rowCur S row { a with enc := a.enc + 1 }) a
 
 def encode (c : Compiled) : Emitted :=
-  let arities := c.methods.map (fun m => m.vp.length)
-  let slotsN := (arities.map (fun a => 2 * a - 1)).sum
+  -- per method: slots, strides, then what `next` refers to in each definition (an index into the method's
+  -- definitions followed by the two error pseudo-definitions; the repair of D15)
+  let slotsN := (c.methods.map (fun m => 2 * m.vp.length - 1 + m.specs.length)).sum
   let slots := (List.zipIdx (c.methods.zip c.outs)).flatMap (fun ((m, o), mi) =>
-    slotsOf c.slots mi m.vp.length ++ o.strides)
+    slotsOf c.slots mi m.vp.length ++ o.strides ++ o.nexts.map (cellIndex m.specs.length))
   let vt := (List.zipIdx c.vtbl).flatMap (fun (row, ci) => encodeClass c ci row)
   let decN := (c.vtbl.map List.length).sum
   -- headroom: replay the cursor positions entry by entry
@@ -236,11 +237,26 @@ def decodeClass (em : Emitted) (ms : List (Nat × Nat)) (starts : List (Option N
       let st ← decodeEntries em ms starts (em.vtbls.length + 1) st
       pure (st, acc.2.1 ++ [some vp], acc.2.2 ++ [cell])
 
-/-- the `slots_strides` arrays: `2 * arity - 1` numbers per method, cut from the emitted array -/
+/-- the `slots_strides` arrays: `2 * arity - 1` numbers per method, cut from the emitted array (the `next`
+    indices of the method's definitions, which follow them, are skipped here and read by `nextCodesOf`) -/
 def ssOf (ms : List (Nat × Nat)) (slots : List Nat) : List (List Nat) :=
   (ms.foldl (fun (acc : List (List Nat) × List Nat) (m : Nat × Nat) =>
     let n := 2 * m.1 - 1
-    (acc.1 ++ [acc.2.take n], acc.2.drop n)) (([] : List (List Nat)), slots)).1
+    (acc.1 ++ [acc.2.take n], acc.2.drop (n + m.2))) (([] : List (List Nat)), slots)).1
+
+/-- the `next` indices: one per definition, after each method's slots and strides -/
+def nextCodesOf (ms : List (Nat × Nat)) (slots : List Nat) : List (List Nat) :=
+  (ms.foldl (fun (acc : List (List Nat) × List Nat) (m : Nat × Nat) =>
+    let n := 2 * m.1 - 1
+    (acc.1 ++ [(acc.2.drop n).take m.2], acc.2.drop (n + m.2))) (([] : List (List Nat)), slots)).1
+
+/-- `*spec.next = defs[next_index]` for every definition of every method: the cells `update` fills in
+    `build_dispatch_tables`, rebuilt from the encoded indices -/
+def decodeNext (em : Emitted) (ms : List (Nat × Nat)) : Except Err (List (List Cell)) :=
+  (ms.zip (nextCodesOf ms em.slots)).mapM (fun (m, codes) =>
+    codes.mapM (fun cd => match defOfIndex m.2 cd with
+      | some cell => .ok cell
+      | none => .error (.fault "decode: next index out of range")))
 
 /-- `decode_dispatch_data`: `cells` gives, per class record in catalog order, the key of its static
     v-table pointer cell (records of one class share a cell and are decoded once) -/
